@@ -105,6 +105,7 @@ def run(ctx, repo):
     ctx.rule('R5', 'a neighbour row without a distance counts as an end of the table (nearest end is used)')
     ctx.rule('R6', 'below the first running row: either the lower-end arm of find_row_by_distance compares the scan index with the first '
                    'running row, or calculate_factor tests the neighbour\'s distance before it evaluates the neighbour\'s factor')
+    ctx.rule('R7', 'every bare whole-metre distance is classified as a running event by event_code_to_kind (automata inclusion)')
     ctx.rule('R3', 'data: row "50" present per gender; running distances and standards positive')
     frd = mod.func('AgeGrader.find_row_by_distance')
     # can the two indices be equal?  (chained assignment of both from one value)
@@ -402,6 +403,38 @@ def run(ctx, repo):
                         '`%s`: it is never taken, so below 50 m the "shorter neighbour" is the row before "50" - a throwing event without a '
                         'distance and, for some ages, without factors (%s); %s' % (sorted(starts), unparse(n.test), ', '.join(holes[:2]), detail),
                         "AgeGrader().calculate_factor('m', 10, '40') raises TypeError")
+    # ---- R7 every bare whole-metre distance is classified as a running event by the grader's classifier (else the interpolation is
+    # never reached: "instead of failing"); the classifier's dispatch is read from the code, the inclusion is decided on automata
+    from .. import rx
+    from ..pats import Pats
+    P = Pats(repo)
+    ek = mod.func('AgeGrader.event_code_to_kind')
+    disp = []
+    for n in ast.walk(ek):
+        if isinstance(n, ast.Tuple) and len(n.elts) == 2 and isinstance(n.elts[0], ast.Constant) and isinstance(n.elts[0].value, str) \
+                and isinstance(n.elts[1], ast.Name) and n.elts[1].id.startswith('PAT_'):
+            disp.append((n.elts[0].value, n.elts[1].id))
+    if len(disp) < 2:
+        raise AnalysisError('event_code_to_kind: (kind, pattern) dispatch table not found')
+    import re._parser as _sp
+    bare = P.exact(list(_sp.parse(r'[1-9][0-9]*')))
+    rest = bare
+    running = None
+    for kind, pat in disp:
+        d = P.dfa(pat)
+        if kind in ('track', 'road'):
+            hit = rx.inter(rest, d)
+            running = hit if running is None else rx.union(running, hit)
+        rest = rx.diff(rest, d)
+    lost = rx.diff(bare, running) if running is not None else bare
+    w = P.wit(lost)
+    if w is None:
+        ctx.ok('R7', 'every bare whole-metre distance [1-9][0-9]* is classified as track or road by event_code_to_kind (%s)' % (
+            ', '.join('%s:%s' % kp for kp in disp)))
+    else:
+        ctx.finding('R7', '%s::AgeGrader.event_code_to_kind::bare distances not classified as runs' % AGE, AGE, ek.lineno,
+                    'the bare distance %r is not classified as a running event by event_code_to_kind (dispatch %s): calculate_factor and '
+                    'world_best raise before any interpolation or end-of-table rule applies' % (w, [p_ for _k, p_ in disp]), w)
     # ---- R3 data
     n_rows = 0
     for rel in TABLES:
